@@ -46,8 +46,10 @@ PARTIAL = [
     "state diagram with the padded Hamiltonian, by a stage probe (combine_subtrees must never change the denotation) "
     "and by the dense oracle",
     "the marking walk add_single_term (TREE) is not modelled; decided per input",
-    "from_state_diagram (tensor filling, find_tensor_position, obtain_tensor_shape) is not modelled in Lean: "
-    "sum over bond indices = sum over consistent hyperedge choices is checked per input (formal sum vs dense contraction)",
+    "from_state_diagram is modelled (fillTTNO) and fill_contract_eq_denote / base_ttno_exact are proved about the "
+    "model; the tie to the code is the correspondence `C01 fill` (shapes and non-zero positions exactly, values to "
+    "1e-12, for the diagrams of all four methods).  Not modelled: NumPy itself (array allocation, in-place `+=` on "
+    "complex blocks, astype) and Node/TTN bookkeeping of add_root / add_child_to_parent (leg order is compared)",
     "known defects F-C01a (TREE), F-C01b / F-C01c (SGE, BIPARTITE) and F-C01d (SGE): the full-strength statement is "
     "false of the code for those methods; theorem base_exact covers the uncompressed method only",
 ]
@@ -670,6 +672,103 @@ def probe_stages(ctx, case, ref, hp, meth) -> None:
             break
 
 
+# ------------------------------------------------------------------ from_state_diagram vs the Lean model `fillTTNO`
+
+_FILL_DEFER = False
+_FILL_QUEUE: List[Dict[str, Any]] = []
+
+
+def fill_request(case, sd, ref, hp, meth) -> Optional[Dict[str, Any]]:
+    """Run the library's `from_state_diagram` on `sd` and prepare the model request for the same diagram."""
+    from pytreenet.ttno.ttno_class import TreeTensorNetworkOperator
+    n = len(ref.nodes)
+    diag = canonical_diagram(sd, ref)
+    if "?" in diag:
+        return None
+    conv = hp.conversion_dictionary
+    labels = sorted({he.label for he in sd.get_all_hyperedges()})
+    table = " ".join(f"{l}:{conv[l].shape[0]}" for l in labels if l in conv)
+    line = f"C01 fill {lean_tree_tokens(case)} {diag} {table}".rstrip()
+    item: Dict[str, Any] = {"case": case, "line": line, "conv": conv, "cm": hp.coeffs_mapping}
+    try:
+        ttno2 = TreeTensorNetworkOperator.from_state_diagram(sd, conv, hp.coeffs_mapping, meth)
+    except Exception as e:      # noqa: BLE001
+        item["raised"] = f"{type(e).__name__}: {str(e)[:80]}"
+        return item
+    tensors = {}
+    for i in range(n):
+        nid = f"n{i}"
+        node_ref = ref.nodes[nid]
+        want = ([node_ref.parent] if node_ref.parent is not None else []) + list(node_ref.children)
+        node = ttno2.nodes[nid]
+        have = ([node.parent] if node.parent is not None else []) + list(node.children)
+        t = np.asarray(ttno2.tensors[nid])
+        if sorted(want) != sorted(have) or t.ndim != len(have) + 2:
+            item["raised"] = f"structure: node {nid} has neighbours {have}, reference {want}"
+            return item
+        perm = [have.index(x) for x in want] + [len(have), len(have) + 1]
+        tensors[i] = np.transpose(t, perm)
+    item["tensors"] = tensors
+    return item
+
+
+def compare_fill(item, model: str) -> Optional[str]:
+    """None if the library's tensors are what the model's `fillTTNO` says (shapes and non-zero positions exactly,
+    values to 1e-12), else a description."""
+    import itertools
+    if model == "bad-op":
+        return "model could not parse the diagram: " + item["line"][:200]
+    if model == "raise":
+        return None if "raised" in item else "model: from_state_diagram raises on this diagram, the library returned a TTNO"
+    if "raised" in item:
+        return f"library from_state_diagram failed ({item['raised']}), model returns a TTNO"
+    conv, cm, tensors = item["conv"], item["cm"], item["tensors"]
+    for part in model.split(";"):
+        f = part.split(":", 2)
+        if len(f) != 3 or f[1] == "?":
+            return f"model output malformed: {part[:80]}"
+        i = int(f[0])
+        shape = [int(x) for x in f[1].split("x")]
+        bonds, phys = shape[:-1], shape[-1]
+        t = tensors[i]
+        if list(t.shape) != bonds + [phys, phys]:
+            return f"node n{i}: tensor shape {t.shape}, model {bonds + [phys, phys]}"
+        cells: Dict[Tuple[int, ...], np.ndarray] = {}
+        if f[2]:
+            for cell in f[2].split(","):
+                pos_s, _, items = cell.partition("=")
+                pos = tuple(int(x) for x in pos_s.split(".")) if pos_s else ()
+                acc = np.zeros((phys, phys), dtype=complex)
+                for it in items.split("+"):
+                    q, gam, lab = it.split("*", 2)
+                    acc = acc + complex(Fraction(q)) * cm[gam] * conv[lab]
+                cells[pos] = acc
+        for pos in itertools.product(*[range(b) for b in bonds]):
+            block = t[pos]
+            if pos in cells:
+                if not np.all(np.abs(block - cells[pos]) <= 1e-12 * max(1.0, float(np.max(np.abs(cells[pos]))))):
+                    return f"node n{i}, position {pos}: library entry differs from the model's sum of contributions"
+            elif np.any(block != 0):
+                return f"node n{i}, position {pos}: library entry non-zero, model has no contribution there"
+    return None
+
+
+def flush_fill_checks(ctx) -> None:
+    global _FILL_QUEUE
+    queue, _FILL_QUEUE = _FILL_QUEUE, []
+    if not queue:
+        return
+    try:
+        outs = ctx.lean.batch([q["line"] for q in queue])
+    except Exception as e:      # noqa: BLE001
+        raise common.HarnessError(f"model driver (fill): {e}")
+    for q, out in zip(queue, outs):
+        msg = compare_fill(q, out)
+        ctx.tally("fill_check", "agree" if msg is None else "DISAGREE")
+        if msg is not None:
+            ctx.corr_fail(q["case"], "from_state_diagram vs model fillTTNO: " + msg)
+
+
 # ------------------------------------------------------------------ Lean protocol
 
 def lean_tree_tokens(case) -> str:
@@ -724,7 +823,7 @@ def run(ctx):
                 cases.append(payload.get("case", payload))
     max_nodes = 6 if ctx.tier == "quick" else 8
     max_dim = 72 if ctx.tier == "quick" else 216
-    n_ham = ctx.n(2400, 20000)
+    n_ham = ctx.n(2200, 13000)
     streams = ["clean"] * 5 + ["prop"] * 2 + ["dup"] * 2
     for k in range(n_ham):
         stream = streams[k % len(streams)]
@@ -763,14 +862,22 @@ def run(ctx):
         raise common.HarnessError(f"model driver: {e}")
     for i, c in enumerate(base_cases):
         model[case_key(c)] = outs[3 * i: 3 * i + 3]
-    for c in cases:
-        if ctx.time_left() < 0:
-            break
-        if "method" in c:
-            run_case(ctx, c)
-            continue
-        for m in METHOD_NAMES:
-            run_case(ctx, dict(c, method=m), model.get(case_key(c)))
+    global _FILL_DEFER
+    _FILL_DEFER = True
+    try:
+        for c in cases:
+            if ctx.time_left() < 0:
+                break
+            if "method" in c:
+                run_case(ctx, c)
+            else:
+                for m in METHOD_NAMES:
+                    run_case(ctx, dict(c, method=m), model.get(case_key(c)))
+            if len(_FILL_QUEUE) >= 4000:
+                flush_fill_checks(ctx)
+        flush_fill_checks(ctx)
+    finally:
+        _FILL_DEFER = False
 
 
 def fixed_cases() -> List[Dict[str, Any]]:
@@ -885,6 +992,11 @@ def run_case(ctx, case, model_out: Optional[List[str]] = None):
         if dp:
             wrong.append("state diagram malformed: " + "; ".join(dp[:2]))
         else:
+            fq = fill_request(case, sd, ref, hp, meth)
+            if fq is not None:
+                _FILL_QUEUE.append(fq)
+                if not _FILL_DEFER:
+                    flush_fill_checks(ctx)
             got_formal = diagram_formal_sum(sd, ref)
             if got_formal != want_formal:
                 wrong.append("state diagram denotes a different operator: " + formal_diff(got_formal, want_formal))
